@@ -66,6 +66,9 @@ func c16Scenarios(tier string) []*Scenario {
 	if tier == "thorough" {
 		bound = 3
 	}
+	if tier == "lite" {
+		bound = 1
+	}
 	// (a) raw client -> real server
 	for _, method := range []string{"Unary", "ClientStream", "ServerStream", "Bidi"} {
 		for _, rs := range c16ReqSeqs() {
